@@ -20,6 +20,7 @@ type WorldOpts struct {
 	AxesVary     bool     // the axes may be absent / mapped otherwise in the second and third mapping
 	Subs         int      // up to this many key sub-handlers (>=1)
 	Velocity0    bool     // allow velocity = 0 (meaning 64)
+	Twins        bool     // with >=2 sub-handlers: a second sub-handler may report a note key with the same code as a key of another one
 }
 
 var allModes = []string{"off", "no_repeat", "interrupt", "retrigger"}
@@ -95,6 +96,26 @@ func genWorld(t *rapid.T, o WorldOpts) *Desc {
 	for i := range keySub {
 		keySub[i] = subNames[rapid.IntRange(0, nSubs-1).Draw(t, "keysub")]
 	}
+	// twins: the same key code reported by another sub-handler of the device is another physical key
+	var twins []PK
+	if o.Twins && nSubs > 1 {
+		for i := rapid.IntRange(0, 2).Draw(t, "twins"); i > 0; i-- {
+			k := rapid.IntRange(0, nKeys-1).Draw(t, "twinOf")
+			for _, s := range subNames {
+				if s != keySub[k] {
+					tw := PK{s, noteCodes[k]}
+					dup := false
+					for _, x := range twins {
+						dup = dup || x == tw
+					}
+					if !dup {
+						twins = append(twins, tw)
+					}
+					break
+				}
+			}
+		}
+	}
 	for mi := 0; mi < nMap; mi++ {
 		m := MappingDef{Name: []string{"Piano", "Chromatic", "Drums"}[mi]}
 		for i, code := range noteCodes {
@@ -112,6 +133,13 @@ func genWorld(t *rapid.T, o WorldOpts) *Desc {
 			}
 			off := rapid.SampledFrom(offsets).Draw(t, "off")
 			m.Keys = append(m.Keys, KeyDef{Sub: keySub[i], Code: code, Note: note, Off: off})
+		}
+		for _, tw := range twins {
+			if mi > 0 && rapid.IntRange(0, 9).Draw(t, "twinUnmapped") < 3 {
+				continue
+			}
+			note := clampNote(center + rapid.SampledFrom(deltas).Draw(t, "twinDelta"))
+			m.Keys = append(m.Keys, KeyDef{Sub: tw.Sub, Code: tw.Code, Note: note, Off: rapid.SampledFrom(offsets).Draw(t, "twinOff")})
 		}
 		subsUsed := map[string]bool{}
 		for _, k := range m.Keys {
@@ -150,7 +178,15 @@ func genWorld(t *rapid.T, o WorldOpts) *Desc {
 		n := rapid.IntRange(0, o.ExitMax).Draw(t, "exitLen")
 		var cand []uint16
 		if o.ExitOverlap {
-			cand = append(cand, noteCodes...)
+			for _, c := range noteCodes { // the exit sequence names codes, not keys: codes with a twin stay out of it
+				tw := false
+				for _, x := range twins {
+					tw = tw || x.Code == c
+				}
+				if !tw {
+					cand = append(cand, c)
+				}
+			}
 			for _, a := range d.Actions {
 				cand = append(cand, a.Code)
 			}
@@ -232,15 +268,24 @@ type histState struct {
 	steps    []Step
 }
 
+// twinBit marks the generator's handle of a key whose code is also used by a key of another sub-handler
+// (evdev key codes end at 0x2ff). Steps always carry the real (sub-handler, code).
+const twinBit = 0x8000
+
 func newHistState(d *Desc) *histState {
 	h := &histState{d: d, down: map[uint16]bool{}, sub: map[uint16]string{}, actions: map[uint16]string{}, heldAct: map[string]bool{}}
 	seen := map[uint16]bool{}
 	for _, m := range d.Mappings {
 		for _, k := range m.Keys {
-			if !seen[k.Code] {
-				seen[k.Code] = true
-				h.noteKeys = append(h.noteKeys, k.Code)
-				h.sub[k.Code] = k.Sub
+			// handle of a key: its code; a second key with the same code on another sub-handler gets code|twinBit
+			hd := k.Code
+			if s, ok := h.sub[hd]; ok && s != k.Sub {
+				hd |= twinBit
+			}
+			if !seen[hd] {
+				seen[hd] = true
+				h.noteKeys = append(h.noteKeys, hd)
+				h.sub[hd] = k.Sub
 			}
 		}
 	}
@@ -307,7 +352,7 @@ func (h *histState) toggle(code uint16) {
 }
 
 func (h *histState) emitKey(code uint16, val int32) {
-	h.steps = append(h.steps, Step{T: "key", Sub: h.sub[code], Code: code, Val: val})
+	h.steps = append(h.steps, Step{T: "key", Sub: h.sub[code], Code: code &^ twinBit, Val: val})
 	if val == 1 {
 		h.down[code] = true
 		if a, ok := h.actions[code]; ok {
@@ -385,7 +430,7 @@ func genHistory(t *rapid.T, d *Desc, o HistOpts) []Step {
 			}
 		case kind < 90 && o.Repeats && len(h.noteKeys) > 0:
 			c := h.noteKeys[rapid.IntRange(0, len(h.noteKeys)-1).Draw(t, "key")]
-			h.steps = append(h.steps, Step{T: "rep", Sub: h.sub[c], Code: c, Val: 2})
+			h.steps = append(h.steps, Step{T: "rep", Sub: h.sub[c], Code: c &^ twinBit, Val: 2})
 		case kind < 93 && o.UnmappedKey && len(h.spare) > 0:
 			h.toggle(h.spare[rapid.IntRange(0, len(h.spare)-1).Draw(t, "spare")])
 		case kind < 97 && len(axes) > 0:
